@@ -3,10 +3,12 @@ from engine.rulelib import *
 from engine import desc as D
 
 EXPLANATION = ("Static rules over quinn-proto MIR: (a) anti_amplification_blocked(b) is !validated && total_recvd*3 < total_sent + b; (b) in poll_transmit every "
-               "datagram allocation (buf_capacity += ..) is dominated by the not-blocked edge of that test, whose argument accounts for the datagrams already "
-               "built; the loss timer is stopped while blocked; (c) PathData.validated is set true only in on_path_validated and the PATH_RESPONSE arm and every new "
-               "path is constructed unvalidated with zeroed counters; (d) who-may-write and store idioms of total_sent / total_recvd: each received datagram is "
-               "credited exactly once (first packet in handle_event, the rest in handle_coalesced); (e) stateless reset: rate limit, strictly smaller than the "
+               "site that makes room for a datagram (a raise of the capacity handed to PacketBuilder::new: the batch allocation `cap += ..` and the fresh capacity of "
+               "the MTU probe) is dominated by the not-blocked edge of that test on self.path, whose argument accounts for the datagrams already built (size*count+1; the "
+               "bare 1 only where buf is still empty); the loss timer is stopped while blocked; (c) PathData.validated is set true only in on_path_validated and the "
+               "PATH_RESPONSE arm, every new path is constructed unvalidated with zeroed counters, and every challenge token stored in a path is a random draw of its "
+               "own; (d) who-may-write and store idioms of total_sent / total_recvd: each received datagram is credited exactly once (first packet in handle_event, "
+               "the rest in handle_coalesced) and only under source == self.path.remote; (e) stateless reset: rate limit, strictly smaller than the "
                "inciting datagram, timestamp stored; (f) Initials shorter than 1200 bytes create no state and no reply; (g) inventory of Transmit construction "
                "sites. The running 3x inequality including padding arithmetic is NOT decided.")
 RULE = "rule instances = (rule, site) pairs over MIR expressions / stores / branches; non-trivial = bound to a real site"
@@ -139,18 +141,54 @@ def rule_a(ctx):
               'a validated path can be reported as amplification-blocked (no dominating branch on self.validated whose TRUE edge returns false; returned on that edge: %s)' % seen)
 
 
+def covers(body, br, bad_target, site_bb):
+    """the branch dominates the site and the site cannot be reached over `bad_target` without re-evaluating the branch"""
+    return body.dominates(br.bb, site_bb) and site_bb not in body.reachable_from(bad_target, avoid=[br.bb])
+
+
 def rule_b(ctx):
     F = ctx.facts
     pt = ctx.pfn('Connection::poll_transmit')
     d = describer(F, pt, stop_named=True)
-    allocs = []
-    for i, j, pl, rv, line in pt.assigns():
-        if pt.local_name(pl[0]) == 'buf_capacity' and not pl[1]:
-            x = d.rvalue(rv, i, j, 0)
-            if x[0] == 'bin' and x[1] == 'Add':
-                allocs.append((i, line))
+    is_buf_len = lambda x: is_len_of(x, lambda y: is_param(y, 'buf'))
+    # Sites at which room for a datagram is made available: every packet of poll_transmit is written through a
+    # PacketBuilder, whose `buffer_capacity` argument bounds what may be written.  A site is
+    #   - an ALLOCATION: a definition `L = L + x` of a local L handed over as buffer_capacity (one more datagram of a batch);
+    #   - a FRESH datagram: any other definition of such a local that can raise it (everything but the literal 0 and
+    #     `buf.len()`, which clips the capacity to what is already written), or the PacketBuilder::new call itself when the
+    #     capacity argument is not a local (a datagram outside the batch loop: the MTU probe).
+    pb = ctx.pfn('PacketBuilder::new')
+    capi = [i - 1 for i in range(1, pb.argc + 1) if pb.local_name(i) == 'buffer_capacity']
+    builders = pt.calls_to('PacketBuilder::new') if len(capi) == 1 else []
+    ctx.floor('b', 'packet_builder_sites', len(builders), 2)
+    allocs, fresh, cap_locals = [], [], set()
+    for c in builders:
+        a = d.operand(c.args[capi[0]], c.bb, term_idx(pt, c.bb))
+        if a[0] != 'local':
+            fresh.append((c.bb, c.line))
+            continue
+        l = a[1]
+        if l in cap_locals:
+            continue
+        cap_locals.add(l)
+        for df in pt.defs_of(l):
+            if df[0] == 'stmt':
+                x = d.rvalue(df[3], df[1], df[2], 0)
+                line = pt.blocks[df[1]]['s'][df[2]][-1]
+                if is_int(x, 0) or is_buf_len(x):
+                    continue
+                if two(x, 'Add', lambda y: y[0] == 'local' and y[1] == l, lambda y: True):
+                    allocs.append((df[1], line))
+                else:
+                    fresh.append((df[1], line))
+            elif df[0] in ('call', 'callfield'):
+                fresh.append((df[1], df[2].line))
+            elif df[0] != 'arg':
+                fresh.append((df[1], pt.blocks[df[1]]['s'][df[2]][-1] if len(df) > 2 and isinstance(df[2], int) else 0))
+    allocs, fresh = sorted(set(allocs)), sorted(set(fresh))
     ctx.floor('b', 'datagram_allocation_sites', len(allocs), 1)
-    tests = pt.calls_to('PathData::anti_amplification_blocked')
+    ctx.floor('b', 'fresh_datagram_sites', len(fresh), 1)
+    tests = [t for t in pt.calls_to('PathData::anti_amplification_blocked') if t.args and is_self_path(d.operand(t.args[0], t.bb, term_idx(pt, t.bb)))]
     ctx.floor('b', 'amplification_test_sites', len(tests), 1)
     # the two locals of the test argument, identified by what is stored in them (not by their names):
     #   counter: the local incremented by exactly one where a datagram is allocated (X = X + 1 dominated by an allocation site)
@@ -168,20 +206,36 @@ def rule_b(ctx):
                     sizes.add(l)
     ctx.floor('b', 'datagram_counter_local', len(counters), 1)
     ctx.floor('b', 'segment_size_local', len(sizes), 1)
+    # edges on which nothing has been written to `buf` yet: buf.is_empty() / buf.len() == 0 holds
+    empty = [(br, br.target(0 if truth else 1)) for br, truth, tgt in
+             bool_edges(ctx, pt, lambda x: x[0] == 'call' and x[1].rsplit('::', 1)[-1] == 'is_empty' and len(x[3]) == 1 and is_param(x[3][0], 'buf')) if truth]
+    empty += [(br, br.target(0 if truth else 1)) for br, truth, tgt in
+              guard_edges(ctx, pt, lambda o, a, b: o == 'Eq' and ((is_buf_len(a) and is_int(b, 0)) or (is_buf_len(b) and is_int(a, 0))))]
+    nothing_built = lambda bb: any(covers(pt, br, other, bb) for br, other in empty)
     nbr = 0
+    guards = []     # (test, branch, target of the BLOCKED edge, argument accounts for the whole batch)
     for t in tests:
         a = d.operand(t.args[1], t.bb, term_idx(pt, t.bb))
-        ok = two(a, 'Add', lambda y: is_int(y, 1),
-                 lambda y: two(y, 'Mul', lambda z: z[0] == 'local' and z[1] in counters, lambda z: z[0] == 'local' and z[1] in sizes))
-        ctx.check(ok, 'b', 'test_accounts_for_built_datagrams', pt, t.where(), 'segment_size * num_datagrams + 1', 'the amplification test does not account for exactly the datagrams already built in this call (size * count + 1): ' + D.render(a)[:160])
+        full = two(a, 'Add', lambda y: is_int(y, 1),
+                   lambda y: two(y, 'Mul', lambda z: z[0] == 'local' and z[1] in counters, lambda z: z[0] == 'local' and z[1] in sizes))
+        mine = []
         for br in branches(F, pt):
             inner, neg = peel_not(br.desc)
             if inner[0] == 'call' and contains_site(inner, t):
                 nbr += 1
-                t_blocked = br.target(0 if neg else 1)
-                bad = [l for bb, l in allocs if bb in pt.reachable_from(t_blocked, avoid=[br.bb]) or not pt.dominates(br.bb, bb)]
-                ctx.check(not bad, 'b', 'allocation_only_when_not_blocked', pt, t.where(), 'every buf_capacity += .. is dominated by the not-blocked edge', 'a datagram can be allocated although the path is amplification-blocked (lines %s)' % bad)
+                mine.append((t, br, br.target(0 if neg else 1), full))
+        guards += mine
+        # `blocked(1)` asks for one byte on top of total_sent alone: right only where this call has not built anything yet
+        guarded = [bb for bb, _ in allocs + fresh if any(covers(pt, br, tb, bb) for _, br, tb, _ in mine)]
+        ok = full or (is_int(a, 1) and all(nothing_built(bb) for bb in guarded))
+        ctx.check(ok, 'b', 'test_accounts_for_built_datagrams', pt, t.where(), 'segment_size * num_datagrams + 1' if full else '1, only for datagrams started while buf is empty',
+                  'the amplification test does not account for exactly the datagrams already built in this call (size * count + 1; the bare 1 only where buf is still empty): ' + D.render(a)[:160])
     ctx.floor('b', 'branches_on_amplification_test', nbr, 1)
+    for inst, sites, what in (('allocation_only_when_not_blocked', allocs, 'every buf_capacity += .. is dominated by the not-blocked edge'),
+                              ('fresh_datagram_only_when_not_blocked', fresh, 'a datagram started outside the batch loop (MTU probe) is dominated by the not-blocked edge')):
+        for bb, line in sites:
+            ok = any(covers(pt, br, tb, bb) for _, br, tb, _ in guards)
+            ctx.check(ok, 'b', inst, pt, pt.where(line), what, 'a datagram can be allocated although the path is amplification-blocked (line %s): no amplification test on self.path dominates the site with its blocked edge leading away from it' % line)
     sl = ctx.pfn('Connection::set_loss_detection_timer')
     tests = sl.calls_to('PathData::anti_amplification_blocked')
     ok = False
@@ -225,6 +279,43 @@ def rule_c(ctx):
         ok2 = any(pp.dominates(br.bb, w.bb) and w.bb not in pp.reachable_from(br.target(0 if truth else 1), avoid=[br.bb]) for br, truth, tgt in es2)
         ctx.check(ok2, 'c', 'path_response_must_come_from_path', pp, w.where(), '&& remote == path.remote', 'a PATH_RESPONSE from another address validates the path')
 
+    # a path challenge proves that the peer receives at the challenged address only if its token is known to nobody else:
+    # every token stored in a PathData.challenge is its own draw from the connection RNG (one draw site per store, the
+    # drawn value stored as it is), so the token sent to one address never validates another
+    toks = [(w, v) for w, v in store_values(ctx, PD, 'challenge') if not (v[0] == 'agg' and v[1] == 'adt' and v[2].endswith('Option::None'))]
+    for w in field_writes(F, PD, 'challenge', crate='quinn_proto'):
+        if w.kind != 'mutborrow' or (w.call is not None and (is_noise(w.call) or w.call.is_('Option::take'))) or borrow_stores(F, w):
+            continue
+        if w.call is not None and w.call.is_('Option::replace', 'Option::insert', 'Option::get_or_insert') and len(w.call.args) == 2:
+            toks.append((w, ('agg', 'adt', 'option::Option::Some', (arg_desc(F, w.call, 1),), ('0',))))    # stores Some(arg)
+        else:
+            toks.append((w, ('const', 'other', '<&mut challenge handed to %s>' % (short(w.call.f) if w.call is not None else '?'), '')))
+    ctx.floor('c', 'challenge_token_stores', len(toks), 2)
+
+    def draw(v):
+        """(body id, block) of the RNG call when v is exactly Some(self.rng.random())"""
+        if not (v[0] == 'agg' and v[1] == 'adt' and v[2].endswith('Option::Some') and len(v[3]) == 1):
+            return None
+        x = v[3][0]
+        if x[0] == 'call' and x[1].rsplit('::', 1)[-1] in ('random', 'next_u64') and len(x[3]) == 1 and is_field_of(x[3][0], 'rng', is_self) and len(x) > 4:
+            return x[4]
+        return None
+    draws = {}
+    for w, v in toks:
+        s = draw(v)
+        if s is not None:
+            draws.setdefault((w.body.id, s), []).append(w)
+    for w, v in toks:
+        s = draw(v)
+        r = F.root_of(w.body)
+        if s is None:
+            ctx.bad('c', 'challenge_token_fresh_per_path', r, w.where(), 'the token stored in PathData.challenge is not exactly a fresh draw from the connection RNG (a copied, derived or constant token can be known to another address): ' + D.render(v)[:160])
+            continue
+        shared = [o.where() for o in draws[(w.body.id, s)] if o is not w]
+        looped = on_cycle(w.body, w.bb) and not (on_cycle(w.body, s) and w.body.dominates(s, w.bb))
+        ctx.check(not shared and not looped, 'c', 'challenge_token_fresh_per_path', r, w.where(), 'Some(self.rng.random()), a draw of its own',
+                  'one random draw is stored as the challenge of more than one path (also stored at %s): the token sent to one address validates the other' % (shared or 'each loop iteration'))
+
 
 def rule_d(ctx):
     F = ctx.facts
@@ -250,6 +341,27 @@ def rule_d(ctx):
         ctx.check(ok and once, 'd', 'coalesced_remainder_credited_once', hc, w.where(), D.render(v)[:120],
                   ('handle_coalesced must credit exactly the length of its `data` argument: ' + D.render(v)[:160]) if not ok else 'the credit of handle_coalesced sits in a loop: it is applied once per coalesced packet instead of once per datagram')
     ctx.check(len(store_values(ctx, PD, 'total_recvd', in_fn=hc)) == 1 and len(store_values(ctx, PD, 'total_recvd', in_fn=he)) == 1, 'd', 'one_credit_per_function', hc, hc.where(), 'one store each', 'number of total_recvd stores changed')
+    # a datagram raises the budget of the path only if it came from the path's own remote: every credit of handle_event /
+    # handle_coalesced sits on the `source == self.path.remote` edge of a dominating comparison (source = the event's
+    # `remote` field resp. the `remote` parameter), and the callers hand the datagram's source on unchanged
+    ev_remote = lambda x: is_field_of(x, 'remote', lambda z: D.has_param(z, name='event') and not D.has_param(z, name='self'))
+    for fn, src in ((he, ev_remote), (hc, lambda x: is_param(x, 'remote'))):
+        own = lambda o, a, b, src=src: o == 'Eq' and ((src(a) and is_field_of(b, 'remote', is_self_path)) or (src(b) and is_field_of(a, 'remote', is_self_path)))
+        es = guard_edges(ctx, fn, own)
+        for w, v in store_values(ctx, PD, 'total_recvd', in_fn=fn):
+            ok = w.body.id == fn.id and any(covers(fn, br, br.target(0 if truth else 1), w.bb) for br, truth, tgt in es)
+            ctx.check(ok, 'd', 'credit_only_from_path_remote', fn, w.where(), 'credited under remote == self.path.remote',
+                      'total_recvd of the current path is credited for a datagram that need not come from the path\'s own address (no dominating `remote == self.path.remote` whose other edge leads away from the store)')
+    ri = [i - 1 for i in range(1, hc.argc + 1) if hc.local_name(i) == 'remote']
+    nsrc = 0
+    for c in F.callers_of('Connection::handle_coalesced', crate='quinn_proto'):
+        r = F.root_of(c.body)
+        a = arg_desc(F, c, ri[0]) if len(ri) == 1 else ('const', 'other', '<noarg>', '')
+        ok = c.body.id == r.id and (ev_remote(a) if r.id == he.id else is_param(a, 'remote'))
+        nsrc += 1
+        ctx.check(ok, 'd', 'coalesced_source_is_datagram_remote', r, c.where(), D.render(a)[:80],
+                  'handle_coalesced is not given the source address of the datagram being processed (its credit test compares this argument with path.remote): ' + D.render(a)[:120])
+    ctx.floor('d', 'coalesced_source_sites', nsrc, 2)
     who_may_call(ctx, 'd', 'handle_coalesced_callers', ['Connection::handle_coalesced'], ['Connection::handle_event', 'Connection::handle_first_packet'], floor=2)
     hf = ctx.pfn('Connection::handle_first_packet')
     fs = store_values(ctx, PD, 'total_recvd', in_fn=hf)
